@@ -23,14 +23,14 @@ from vlib.common import *
 sh = vc.run          # (`run` below is the check's entry point)
 
 # ----------------------------------------------------------------------------- names and trees
-GOOD = [b"a", b"b", b"c.txt", b"d.json", b"x", b"y1", b"data", b"sub", b"README", b"k.txt", b"m.json", b"z"]
+GOOD = [b"a", b"b", b"c.txt", b"d.json", b"x", b"y1", b"data", b"sub", b"README", b"readme", b"k.txt", b"m.json", b"z"]
 HIDDEN = [b".h", b".hid.txt", b"_u", b"_priv.txt", b".d", b"_d"]
 SPACES = [b"a b", b"sp ace.txt", b" lead", b"trail "]
 UNI = ["é".encode(), "世界".encode(), "ñ.txt".encode(), "Ωmega".encode(), "über.json".encode()]
 BAD = [b".git", b".hg", b".svn", b".bzr", b"...", b"a.", b"a'b", b"q?", b"st*r", b'b"q', b"a:b", b"x|y", b"lt<", b"s;c",
-       "em\U0001F600".encode(), "nb\u00a0sp".encode(), b"con", b"CON.txt", b"nul", b"aux.c", b"com1", b"LPT9.x", b"Com3",
+       "em\U0001F600".encode(), "nb\u00a0sp".encode(), b"con", b"CON.txt", b"nul", b"aux.txt", b"com1", b"LPT9.x", b"Com3",
        b"\xff", b"a\xfeb", b"`bq", b"a\\b"]
-META = [b"[z]", b"a[1]", b"{x}", b"a+b", b"t~1", b"#h", b"$v", b"a,b", b"p(1)", b"e=f", b"at@x", b"^c", b"-dash"]
+META = [b"[z]", b"a[1]", b"{x}", b"a+b", b"t~1", b"#h", b"$v", b"a,b", b"p(1)", b"e=f", b"at@x", b"^c"]
 ALL_NAMES = GOOD + HIDDEN + SPACES + UNI + BAD + META
 
 
@@ -272,7 +272,7 @@ def render_pattern(rng, p):
 
 # ----------------------------------------------------------------------------- go list / go build
 def go_list(moddir):
-    p = sh(["go", "list", "-e", "-json", "./..."], cwd=moddir, env=go_env(), timeout=3600)
+    p = sh(["go", "list", "-e", "-json", "./..."], cwd=moddir, env=go_env(), timeout=900)
     dec = json.JSONDecoder()
     out = {}
     s = p.stdout
@@ -290,11 +290,27 @@ def go_list(moddir):
     return out
 
 
-def go_build_status(moddir):
-    """{package dir name: True (compiles) | False}"""
-    p = sh(["go", "build", "./d..."], cwd=moddir, env=go_env(), timeout=3600)
+def go_build_status(moddir, names):
+    """compile the named packages (those `go list` loads without error): set of names the compiler rejects"""
+    if not names:
+        return set(), ""
+    p = sh(["go", "build"] + ["./" + n for n in names], cwd=moddir, env=go_env(), timeout=900)
     bad = set(re.findall(r"^# \S+/(\S+)$", p.stderr, flags=re.M))
+    if p.returncode != 0 and not bad:
+        raise RuntimeError("go build failed without naming a package:\n" + p.stderr[-3000:])
     return bad, p.stderr
+
+
+LOAD_UNSAFE = "invalid input file name"
+LOAD_FOLD = "case-insensitive file name collision"
+
+
+def safe_arg(name):
+    """cmd/go load.SafeArg + the `_cgo_` rule applied to every input file, embedded files included"""
+    if not name or name.startswith(b"_cgo_"):
+        return False
+    c = name[0]
+    return chr(c).isalnum() and c < 0x80 or c in b"._/" or c >= 0x80
 
 
 def g_result(obj):
@@ -515,8 +531,11 @@ def run(ctx, args):
     # ---------------------------------------------------------------- reference toolchain
     G = go_list(mod.decode("utf-8", "surrogateescape"))
     G2 = go_list(mod2.decode("utf-8", "surrogateescape"))
-    bad_build, build_err = go_build_status(mod.decode("utf-8", "surrogateescape"))
+    bad_build, build_err = go_build_status(mod.decode("utf-8", "surrogateescape"),
+                                           sorted(n for n, o in G.items() if n.startswith("d") and not o.get("Error")))
     ctx.log("go list: %d + %d packages; go build: %d packages rejected" % (len(G), len(G2), len(bad_build)))
+    if os.environ.get("C16_DEBUG"):
+        ctx.log(build_err[:1500])
 
     # ---------------------------------------------------------------- real code and model
     # which variant of CheckPath does the working tree have?  (witness of Props/C16)
@@ -602,17 +621,31 @@ def run(ctx, args):
         if g is None:
             raise RuntimeError("go list did not report package " + c["name"])
         gres = g_result(g)
-        if gres[0] == "err" and not gres[1].startswith("pattern "):
-            raise RuntimeError("go list failed for another reason on %s: %s" % (c["name"], gres[1]))
+        gmsg = gres[1] if gres[0] == "err" else ""
+        # rules of cmd/go's package loader that look at the embedded file names after resolveEmbed succeeded
+        g_load = LOAD_UNSAFE if gmsg.startswith(LOAD_UNSAFE) else LOAD_FOLD if gmsg.startswith(LOAD_FOLD) else None
+        if gres[0] == "err" and not gmsg.startswith("pattern ") and not g_load:
+            raise RuntimeError("go list failed for another reason on %s: %s" % (c["name"], gmsg))
         rf = parse_files(r_tree[i])
         stats["tree:real-ok" if rf is not None else "tree:real-err"] += 1
+        if gres[0] == "err":
+            gk = "go-rejects:" + (g_load or re.sub(r"^pattern .*?: ", "", gmsg).split(" ")[0:3].__str__())
+            stats[gk] = stats.get(gk, 0) + 1
         if rf is not None and len(rf) > 1 or len(c["pats"]) > 1:
             nontrivial.add(lr[i].split(" ", 2)[2] + "|" + lm[i].split(" ", 3)[2])
+
+        def load_rule_holds(names):
+            """does the loader's rule (named by go list's message) really apply to this list of embedded names?"""
+            if g_load == LOAD_UNSAFE:
+                return any(not safe_arg(n) for n in names)
+            low = [n.decode("utf-8", "replace").lower() for n in names + [b"p.go"]]
+            return len(set(low)) != len(low)
+
         # (a) the property, judged on the real code against the reference toolchain
         ok_spec = True
         why = ""
         if (rf is None) != (gres[0] == "err"):
-            ok_spec, why = False, "real %s, go list %s" % ("rejects" if rf is None else "accepts", "rejects: " + gres[1] if gres[0] == "err" else "accepts")
+            ok_spec, why = False, "real %s, go list %s" % ("rejects" if rf is None else "accepts", "rejects: " + gmsg if gres[0] == "err" else "accepts")
         elif rf is not None:
             names = [n.decode("utf-8", "surrogateescape") for n, _ in rf]
             if names != gres[1]:
@@ -626,11 +659,16 @@ def run(ctx, args):
                 ok_spec, why = False, "result not sorted / not duplicate-free"
         if not ok_spec:
             specmism += 1
-            # is it exactly the modelled defect (CheckPath without the non-directory test)?
-            explained = variant == "0" and m_tree[i] == r_tree[i] and m1_tree[i] != "unsupported" and \
-                ((m1_tree[i] == "err") == (gres[0] == "err")) and \
-                (m1_tree[i] == "err" or [n.decode("utf-8", "surrogateescape") for n, _ in parse_files(m1_tree[i])] == gres[1])
-            key = "checkpath:path-through-symlinked-directory" if explained else "resolve:" + lr[i].split(" ", 2)[2] + ":" + enc_tree(c["tree"])[:60]
+            key = None
+            if rf is not None and g_load and load_rule_holds([n for n, _ in rf]):
+                key = "load:embedded-name-unsafe-first-byte" if g_load == LOAD_UNSAFE else "load:case-insensitive-collision"
+            elif variant == "0" and m_tree[i] == r_tree[i] and m1_tree[i] != "unsupported" and not g_load and \
+                    ((m1_tree[i] == "err") == (gres[0] == "err")) and \
+                    (m1_tree[i] == "err" or [n.decode("utf-8", "surrogateescape") for n, _ in parse_files(m1_tree[i])] == gres[1]):
+                # exactly the modelled defect: the code as it stands = model(0), go list = model(1)
+                key = "checkpath:path-through-symlinked-directory"
+            if key is None:
+                key = "resolve:" + lr[i].split(" ", 2)[2] + ":" + enc_tree(c["tree"])[:60]
             ctx.report(key, "ResolvePatterns disagrees with the Go toolchain: " + why,
                        case_replay(c, {"real": r_tree[i], "go_list": gres, "note": c["note"]}))
         # (b) correspondence real vs model
@@ -638,10 +676,15 @@ def run(ctx, args):
             stats["tree:model-unsupported"] += 1
         elif m_tree[i] != r_tree[i]:
             mism.append(("resolve", c["name"], lm[i], r_tree[i], m_tree[i]))
-        # (c) validation of the Lean specification: model(repaired) = Spec (theorem) vs go list
+        # (c) validation of the Lean specification: model(repaired) = Spec (theorem) vs go list.  The Lean
+        #     specification is resolveEmbed's rule; where go list rejects because of a loader rule, the
+        #     specification must accept and the loader rule must really apply to the names it yields.
         if m1_tree[i] != "unsupported":
             mf = parse_files(m1_tree[i])
-            if (mf is None) != (gres[0] == "err") or (mf is not None and [n.decode("utf-8", "surrogateescape") for n, _ in mf] != gres[1]):
+            if g_load:
+                if mf is None or not load_rule_holds([n for n, _ in mf]):
+                    specval_mism.append((c["name"], lm1[i], m1_tree[i], gres))
+            elif (mf is None) != (gres[0] == "err") or (mf is not None and [n.decode("utf-8", "surrogateescape") for n, _ in mf] != gres[1]):
                 specval_mism.append((c["name"], lm1[i], m1_tree[i], gres))
 
     # ---------------------------------------------------------------- package directory with glob metacharacters
